@@ -22,13 +22,6 @@ Fixpoint amount_close_sorted (exact : bool) (a b : amount) : bool :=
 Definition amount_close (exact : bool) (a b : amount) : bool :=
   amount_close_sorted exact (sort_keys a) (sort_keys b).
 
-(* the price graph read off the events (Model/PriceSpec.v), and the optimal rates of
-   "one c in target" as of D: [] = no chain *)
-Definition spec_graph (evs : list price_event) (db : list pline) (D : Z) : cid -> list edge :=
-  spec_out evs db (ev_comms evs db) D.
-Definition spec_rates (evs : list price_event) (db : list pline) (D : Z) (target c : cid) : list Qc :=
-  best_rates (spec_graph evs db D) (length (ev_comms evs db)) target c.
-
 Fixpoint distinct_rates (exact : bool) (l : list Qc) : list Qc :=
   match l with
   | [] => []
